@@ -13,28 +13,41 @@ def register(api):
         if not m:
             raise api.ExtractError("segment_change_valid match not found")
         body = m.group(1)
-        table = {}
-        default = None
-        for arm in re.finditer(r"\(\s*LinkType::(\w+)\s*,\s*LinkType::(\w+)\s*\)\s*=>\s*(true|false)", body):
-            a, b, v = arm.groups()
-            if a not in LT or b not in LT:
-                raise api.ExtractError(f"unknown link type in arm {arm.group(0)}")
-            if (a, b) in table:
-                raise api.ExtractError(f"duplicate arm {(a, b)}")
-            table[(a, b)] = v == "true"
-        md = re.search(r"\b_\s*=>\s*(true|false)", body)
-        if md:
-            default = md.group(1) == "true"
+        # arms in source order, first match wins; each side is `_` or `LinkType::A | LinkType::B ...`
+        arms = []
+        for arm in re.finditer(r"(\([^()]*\)|\b_)\s*=>\s*(true|false)\s*,", body):
+            pat, v = arm.group(1).strip(), arm.group(2) == "true"
+            if pat == "_":
+                arms.append((None, None, v)); continue
+            parts = [x.strip() for x in pat[1:-1].split(",")]
+            if len(parts) != 2:
+                raise api.ExtractError(f"cannot parse match arm {pat!r}")
+            sides = []
+            for side in parts:
+                if side == "_":
+                    sides.append(None); continue
+                alts = [x.strip() for x in side.split("|")]
+                names = []
+                for alt in alts:
+                    mm = re.fullmatch(r"LinkType::(\w+)", alt)
+                    if not mm or mm.group(1) not in LT:
+                        raise api.ExtractError(f"cannot parse pattern {side!r} in arm {pat!r}")
+                    names.append(mm.group(1))
+                sides.append(names)
+            arms.append((sides[0], sides[1], v))
+        n_arrows = len(re.findall(r"=>", body))
+        if n_arrows != len(arms):
+            raise api.ExtractError(f"{n_arrows} match arms in the source, {len(arms)} understood")
         rows = []
         vals = {}
         for a in LT:
             for b in LT:
-                if (a, b) in table:
-                    v = table[(a, b)]
-                elif default is not None:
-                    v = default
-                else:
-                    raise api.ExtractError(f"no arm for {(a, b)} and no default")
+                v = None
+                for (pa, pb, val) in arms:
+                    if (pa is None or a in pa) and (pb is None or b in pb):
+                        v = val; break
+                if v is None:
+                    raise api.ExtractError(f"no arm matches {(a, b)}")
                 vals[f"{a}->{b}"] = v
                 rows.append(f"  | .{lean_lt(a)}, .{lean_lt(b)} => {'true' if v else 'false'}")
         # simulator: ScionLinkType (what this AS is on the link) -> AsRoutingLinkType (link to X)
